@@ -2,6 +2,7 @@
 //! Everything in this crate is an assumption: `assume_specification`, `external_body`, `axiom`.
 //! Compiled and exported by Verus; imported by the spliced `mpd_protocol` and `mpd_client`.
 #![feature(allocator_api)]
+#![feature(sized_hierarchy)]
 #![allow(unused_imports, dead_code, missing_docs, missing_debug_implementations)]
 use vstd::prelude::*;
 use bytes::{Buf, BufMut, BytesMut};
@@ -130,6 +131,28 @@ impl GhostLog {
 }
 pub assume_specification<T, E> [Result::<Option<T>, E>::transpose] (r: Result<Option<T>, E>) -> (o: Option<Result<T, E>>)
     ensures o == match r { Ok(Some(x)) => Some(Ok::<T, E>(x)), Ok(None) => None::<Result<T, E>>, Err(e) => Some(Err::<T, E>(e)) };
+// ---- str::parse / f64 / Duration
+#[verifier::external_trait_specification]
+pub trait ExFromStr: Sized {
+    type ExternalTraitSpecificationFor: std::str::FromStr;
+    type Err;
+    fn from_str(s: &str) -> Result<Self, Self::Err>;
+}
+/// the value a text parses to with `str::parse::<I>` (std's own grammar per type), None = parse error
+pub uninterp spec fn parse_spec<I>(s: Seq<char>) -> Option<I>;
+pub assume_specification<F: std::str::FromStr> [str::parse::<F>] (s: &str) -> (r: Result<F, F::Err>)
+    ensures match parse_spec::<F>(s@) { Some(v) => r == Ok::<F, F::Err>(v), None => r is Err };
+/// "v is representable as a Duration": finite, >= 0, below 2^64 seconds — exactly what Duration::try_from_secs_f64 accepts
+pub uninterp spec fn f64_repr_ok(v: f64) -> bool;
+pub uninterp spec fn dur_of_f64(v: f64) -> std::time::Duration;
+pub assume_specification [std::time::Duration::as_secs_f64] (d: &std::time::Duration) -> f64;
+pub assume_specification [f64::is_finite] (v: f64) -> bool;
+pub assume_specification [std::time::Duration::from_secs_f64] (v: f64) -> (r: std::time::Duration)
+    requires f64_repr_ok(v)            // the std function PANICS otherwise
+    ensures r == dur_of_f64(v);
+#[verifier::external_type_specification] #[verifier::external_body] pub struct ExTryFromFloatSecsError(std::time::TryFromFloatSecsError);
+pub assume_specification [std::time::Duration::try_from_secs_f64] (v: f64) -> (r: Result<std::time::Duration, std::time::TryFromFloatSecsError>)
+    ensures match r { Ok(d) => f64_repr_ok(v) && d == dur_of_f64(v), Err(_) => !f64_repr_ok(v) };
 pub uninterp spec fn dur_millis(d: std::time::Duration) -> nat;
 pub assume_specification [std::time::Duration::from_millis] (m: u64) -> (r: std::time::Duration)
     ensures dur_millis(r) == m;
@@ -201,9 +224,15 @@ pub broadcast axiom fn slice_iter_len_bound<'a, T>(it: &std::slice::Iter<'a, T>)
 pub broadcast axiom fn vec_into_iter_len_bound<T>(it: &std::vec::IntoIter<T>)
     ensures #[trigger] it.remaining().len() <= isize::MAX as nat;
 /// `AsRef<str>`: the text a key argument stands for (uninterpreted per type; instantiated for &str / String)
-pub uninterp spec fn as_ref_str<K: ?Sized>(k: &K) -> Seq<char>;
-pub broadcast axiom fn as_ref_str_str(k: &&str) ensures #[trigger] as_ref_str::<&str>(k) == (*k)@;
-pub broadcast axiom fn as_ref_str_string(k: &String) ensures #[trigger] as_ref_str::<String>(k) == k@;
+#[verifier::external_trait_specification]
+pub trait ExAsRef<T: std::marker::PointeeSized>: std::marker::PointeeSized {
+    type ExternalTraitSpecificationFor: AsRef<T> + std::marker::PointeeSized;
+    fn as_ref(&self) -> (r: &T) ensures r == as_ref_img::<Self, T>(self);
+}
+pub uninterp spec fn as_ref_img<S: std::marker::PointeeSized, T: std::marker::PointeeSized>(s: &S) -> &T;
+pub open spec fn as_ref_str<K: ?Sized>(k: &K) -> Seq<char> { as_ref_img::<K, str>(k)@ }
+pub broadcast axiom fn as_ref_str_str(k: &&str) ensures #[trigger] as_ref_img::<&str, str>(k)@ == (*k)@;
+pub broadcast axiom fn as_ref_str_string(k: &String) ensures #[trigger] as_ref_img::<String, str>(k)@ == k@;
 /// `Option::as_deref` through an uninterpreted Deref image (instantiated for BytesMut below)
 pub uninterp spec fn deref_image<'a, T: core::ops::Deref>(t: &'a T) -> &'a T::Target;
 pub broadcast axiom fn deref_image_bytesmut<'a>(b: &'a BytesMut) ensures #[trigger] deref_image::<BytesMut>(b)@ == bm_view(b);
